@@ -95,6 +95,30 @@ def run_filters(tier, seed):
                 failures.append(dict(name="C19 filter disagrees with its documented meaning", case=f"eval {text}", text=text,
                                      tags=info.tags, state=str(info.state), name_=info.path.parent.name, got=got, want=want))
                 break
+    # tags that happen to be called like the special variables (without the '@'): they are ordinary tags
+    extra = [('name = "bert"', ("eq", "name", "bert")), ('state = "final"', ("eq", "state", "final")), ('name in ["bert", "x"]', ("in", "name", ["bert", "x"])),
+             ('name not in ["bert"]', ("notin", "name", ["bert"])), ('state = "final" and @state = "DONE"', ("and", ("eq", "state", "final"), ("eq", "@state", "DONE"))),
+             ('name ~ "be.*"', ("re", "name", "be.*")), ('@name = "pkg.task" and name = "bert"', ("and", ("eq", "@name", "pkg.task"), ("eq", "name", "bert")))]
+    infos2 = [_Info(tags, state, nm) for tags in ({"name": "bert"}, {"name": "pkg.task", "state": "final"}, {"state": "DONE"}, {})
+              for state in (JobState.DONE, JobState.RUNNING, None) for nm in ("pkg.task", "bert")]
+    for text, spec in extra:
+        try:
+            f = createFilter(text)
+        except Exception as e:  # noqa
+            failures.append(dict(name="C19 filter expression rejected by the parser", case=f"parse {text}", text=text, error=repr(e)))
+            continue
+        for info in infos2:
+            cases += 1
+            try:
+                got = bool(f(info))
+            except Exception as e:  # noqa
+                failures.append(dict(name="C19 filter raises", case=f"raise {text}", text=text, error=repr(e)))
+                break
+            want = bool(_spec(spec, info))
+            if got != want:
+                failures.append(dict(name="C19 filter disagrees with its documented meaning", case=f"eval {text}", text=text,
+                                     tags=info.tags, state=str(info.state), name_=info.path.parent.name, got=got, want=want))
+                break
     return dict(tool="cpython: real pyparsing grammar + expression classes vs an evaluator written from the documentation",
                 bound="expression depth <= %d, 2 tags x 3 values, 4 states, 2 names" % (2 if tier == "quick" else 3),
                 cases=cases, distinct=len(distinct), failures=failures[:6])
